@@ -134,6 +134,14 @@ def world():
                      WithMeta=WithMeta, Alias=SerA, func=lambda: None, T=TypeVar("T"), const=5, none=None,
                      instance=SerA(), text="c19w.sub.SerA", lst=[SerA], UUID=uuid.UUID).items():
         setattr(sub, k, v)
+    # classes nested in classes (tag = module + "." + qualified name since 70c605d)
+    Inner = mkser("Inner", (SubclassJSONSerializer,), "c19w.sub")
+    Inner.__qualname__ = "Outer.Inner"
+    Deep = mkser("Deep", (Inner,), "c19w.sub")
+    Deep.__qualname__ = "Outer.Mid.Deep"
+    Mid = type("Mid", (), {"__module__": "c19w.sub", "__qualname__": "Outer.Mid", "Deep": Deep, "value": 3})
+    Outer = type("Outer", (), {"__module__": "c19w.sub", "Inner": Inner, "Mid": Mid, "attr": 7, "method": lambda self: None})
+    setattr(sub, "Outer", Outer)
     setattr(sub, "é", SerA)
     setattr(sub, "a b", SerA)
     setattr(sub, "", SerA)          # attribute with the empty name: tag "c19w.sub."
@@ -185,32 +193,71 @@ def probe(descr) -> Dict[str, Any]:
     if descr.get("absent") or not isinstance(tag, str) or "." not in tag:
         return o
     m, n = tag.rsplit(".", 1)
+    if m == "" or m.startswith("."):
+        return o                                  # malformed owner part: the resolver must not ask anything
     o["stage"] = "import"
-    try:
-        mod = importlib.import_module(m)
-        o["imports"].append((m, ("ok", INTERN(mod))))
-    except BaseException as e:  # noqa
-        name = type(e).__name__
-        o["imports"].append((m, ("exn", name)))
-        documented = name == "ModuleNotFoundError" or (name == "ValueError" and m == "") or (name == "TypeError" and m.startswith("."))
-        if not documented:
-            o["undocumented"].append(f"import_module({m!r}) raised {name}")
+
+    def imp(name):
+        """ask the importer once; record the answer"""
+        try:
+            mod_ = importlib.import_module(name)
+            o["imports"].append((name, ("ok", INTERN(mod_))))
+            return mod_
+        except BaseException as e:  # noqa
+            en = type(e).__name__
+            o["imports"].append((name, ("exn", en)))
+            if en != "ModuleNotFoundError":
+                o["undocumented"].append(f"import_module({name!r}) raised {en}")
+            return None
+
+    def attr(owner_, name):
+        """ask getattr once; record the answer; returns (found, object)"""
+        oid = INTERN(owner_)
+        try:
+            x = getattr(owner_, name)
+            xid = INTERN(x)
+            o["attrs"].append((oid, name, ("ok", xid)))
+            if isinstance(x, type) and xid not in o["types"]:
+                o["types"].append(xid)
+            return True, x
+        except BaseException as e:  # noqa
+            en = type(e).__name__
+            o["attrs"].append((oid, name, ("exn", en)))
+            if en != "AttributeError":
+                o["undocumented"].append(f"getattr(<{type(owner_).__name__}>, {name!r}) raised {en}")
+            return False, None
+
+    # the owner of the last name: the module `m`, or -- when `m` is not importable -- the longest importable dotted prefix of
+    # `m` followed through classes (the tag format is "<module>.<qualified class name>")
+    owner_ = imp(m)
+    if owner_ is None:
+        if o["imports"][-1][1] != ("exn", "ModuleNotFoundError"):
+            return o
+        names = m.split(".")
+        for k in range(len(names) - 1, 0, -1):
+            mod_ = imp(".".join(names[:k]))
+            if mod_ is None:
+                if o["imports"][-1][1] != ("exn", "ModuleNotFoundError"):
+                    return o
+                continue
+            cur = mod_
+            for name in names[k:]:
+                found, x = attr(cur, name)
+                if not found or not isinstance(x, type):
+                    cur = None
+                    break
+                cur = x
+            owner_ = cur
+            break
+    if owner_ is None:
+        o["stage"] = "owner"
         return o
     o["stage"] = "getattr"
-    mid = INTERN(mod)
-    try:
-        target = getattr(mod, n)
-        tid = INTERN(target)
-        o["attrs"].append((mid, n, ("ok", tid)))
-    except BaseException as e:  # noqa
-        name = type(e).__name__
-        o["attrs"].append((mid, n, ("exn", name)))
-        if name != "AttributeError":
-            o["undocumented"].append(f"getattr({m!r}, {n!r}) raised {name}")
+    found, target = attr(owner_, n)
+    if not found:
         return o
+    tid = INTERN(target)
     o["stage"] = "class"
-    if isinstance(target, type):
-        o["types"].append(tid)
     try:
         b = issubclass(target, SubclassJSONSerializer)
         o["subs"].append((tid, ("ok", bool(b))))
@@ -349,10 +396,20 @@ def tag_table(tier: str, seed: int) -> List[dict]:
              "krrood.adapters.json_serializer.uuid", "krrood.adapters.json_serializer.leaf_types", "krrood.adapters.json_serializer.Dict",
              "krrood.adapters.json_serializer.Self", "krrood.adapters.nosuch.X", "krrood.nosuch", "krrood.utils.get_full_class_name",
              "krrood.singleton.SingletonMeta", "nosuchmodule_c19.X", "nosuchmodule_c19.sub.X", "os\x00.path", "os.\x00", "OS.path", "Json.dumps",
-             " os.path", "os .path", "os.path ", "os.path\n", "\tos.path"]
+             " os.path", "os .path", "os.path ", "os.path\n", "\tos.path",
+             # nested classes, and attribute paths through classes / non-classes
+             "c19w.sub.Outer.Inner", "c19w.sub.Outer.Mid.Deep", "c19w.sub.Outer.Mid", "c19w.sub.Outer", "c19w.sub.Outer.nosuch",
+             "c19w.sub.Outer.nosuch.Inner", "c19w.sub.Outer.Inner.x", "c19w.sub.Outer.attr", "c19w.sub.Outer.attr.x", "c19w.sub.Outer.method",
+             "c19w.sub.Outer.method.x", "c19w.sub.Outer.Mid.value", "c19w.sub.Outer.Mid.nosuch.Deep", "c19w.Outer.Inner", "c19w.sub.Inner",
+             "c19w.sub.Outer..Inner", "c19w.sub.Outer.Inner.", "c19w.sub.outer.Inner", "c19w.sub.func.Inner", "c19w.sub.instance.Inner",
+             "c19w.sub.const.Inner", "c19w.sub.none.Inner", "c19w.sub.factory.<locals>.Local", "c19w.sub.<locals>.Local",
+             "c19w.sub.SerB.__base__", "c19w.sub.SerA.__base__", "c19w.sub.SerA.__class__", "c19w.sub.Outer.Inner.__base__", "c19w.sub.SerB.__mro__",
+             "c19w.sub.Outer.__dict__", "c19w.sub.Outer.__name__", "c19w.sub.Outer.__class__.__base__", "c19w.sub.Reg.__base__",
+             "c19w.sub.RegSub.__base__", "c19w.sub.TaggedUUID.__base__", "c19w.sub.SerReg.__base__", "uuid.UUID.__base__",
+             "uuid.UUID.__class__", "uuid.UUID.int", "os.path.join.__class__", "json.JSONDecoder.decode", "collections.abc.Mapping.get"]
     tags += names
     # dots in every position of a resolvable, a module-valued and a function-valued name
-    for base in ("c19w.sub.SerA", "os.path", "json.dumps", "uuid.UUID"):
+    for base in ("c19w.sub.SerA", "os.path", "json.dumps", "uuid.UUID", "c19w.sub.Outer.Inner"):
         tags += dot_variants(base)
     out = [{"absent": True}] + [{"tag": t} for t in tags]
     if tier == "thorough":
@@ -434,17 +491,18 @@ def run(tier: str, seed: int, replay=None) -> int:
     from translator import t_json
     rep = Report(PROP, tier, seed, "proof")
     rep.trusted = core.COQ_TRUSTED + [
-        "source pins, set `json` (pins/json.json): registry register/get_serializer/get_deserializer, module-level from_json, the six error constructors, SingletonMeta.__call__, ormatic.utils.create_engine -- hand-modelled, not regenerated; a change reopens the correspondence obligation",
+        "source pins, set `json` (pins/json.json): SubclassJSONSerializer._resolve_enclosing_class (hand model [enclosing] in Json/Resolve.v, proved equal to the Spec's owner resolution: C19_enclosing_is_spec), registry register/get_serializer/get_deserializer, module-level from_json, the six error constructors, SingletonMeta.__call__, ormatic.utils.create_engine -- hand-modelled, not regenerated; a change reopens the correspondence obligation",
         "translator/t_json.py (fail-closed ast translator; idiom table: rsplit/startswith/dict.get/isinstance/truthiness as defined in Json/JsonVal.v)",
         "oracle model: importlib.import_module / getattr / isinstance(type) / issubclass / registry as Section variables over their documented behaviours",
         "harness/c19.py: probes of the real import machinery, outcome canonicaliser, synthetic modules c19w / c19w.sub",
         "json.dumps / json.loads carry the document unchanged (compared per case in C18)",
     ]
-    rep.assume = ["importing a module named by a tag raises only ModuleNotFoundError (ValueError for '', TypeError for relative names): "
+    rep.assume = ["the Spec follows the qualified-name tag format (70c605d): owner part = longest importable dotted prefix, then attributes through classes only",
+                  "importing a module named by a tag raises only ModuleNotFoundError (ValueError for '', TypeError for relative names): "
                   "exceptions raised by executing a broken third-party module are outside the model",
                   "module-level __getattr__ hooks and metaclass __subclasscheck__ overrides that raise are outside the model",
                   "what target_cls._from_json / a registered deserialiser does with a resolvable tag is user code (C18)"]
-    rep.rule = ("exhaustive tag table: every JSON type incl. falsy values of each, '', dots at every position of 4 names, names of modules / "
+    rep.rule = ("exhaustive tag table: every JSON type incl. falsy values of each, '', dots at every position of 5 names (one of a nested class), nested-class tags and attribute paths through classes / non-classes (X.__base__, X.method.y, f.<locals>.L), names of modules / "
                 "functions / TypeVars / constants / instances / plain, registered, metaclass and abstract classes in the standard library, krrood and "
                 "two synthetic modules; plus seeded random splices (150 quick / 3000 thorough); thorough adds every attribute name of "
                 f"{len(SAFE_MODULES)} modules; distinct = distinct tag; every case is non-trivial (has its own expected outcome)")
